@@ -80,6 +80,9 @@ func runC15(c *Ctx) {
 		}
 		ok, want, got := c15Oracle(es)
 		rej, out := c.addRulesCase(defaultRulesCfg(), es)
+		if i%2 == 0 {
+			c.addDenCase(es) // the shared denotation function: Go twin vs Coq definition
+		}
 		c.Count(evsString(es), len(es) > 3)
 		c.Dist(fmt.Sprintf("stream/accepted=%v", rej < 0))
 		_ = out
